@@ -40,7 +40,8 @@ hs_unitChar = hs_alpha | Word(u'%_/$' + u''.join([
 hs_unit = Combine(OneOrMore(hs_unitChar))
 hs_digit = Regex(r'\d')
 hs_digits = Regex(r'[0-9_]+')
-hs_quantity = (hs_decimal + hs_unit).leaveWhitespace().setParseAction(
+# (no blank between number and unit, but blanks may precede the number)
+hs_quantity = (hs_decimal + hs_unit.copy().leaveWhitespace()).setParseAction(
     lambda toks: Quantity(toks[0], toks[1])
 )
 hs_number = hs_quantity | hs_decimal | Literal('INF') | Literal("-INF") | Literal("Nan")
